@@ -21,6 +21,7 @@ from pyvc.th_tables import Tables, Key, KEY, fresh_table, wf, no_columns, nrows,
 from pyvc.sv import SV, I, B, S, T, NONE, fresh_name, fresh_int
 
 PROP = 'C01'
+REPLAY_MODULE = 'rac.C01_ded'
 
 
 class Dictable:
@@ -193,6 +194,11 @@ def build(ctx):
     ctx.guarded('__getitem__.int', row_section)
     ctx.trust('rectangularity of tables produced by operations other than __setitem__ (constructor forms, masks, concat, ...) is checked by the bounded stand-in only')
 
+    # ------------------------------------------------------------------ frame: operations that return a new object never alter their operands
+    def frame_section():
+        from pyvc import own
+        own.post_all(ctx, own.table_report(PROP), replay=frame_replay)
+    ctx.guarded('frame', frame_section)
 
 class GetItem:
     """self[key] for a column name goes through dictable.__getitem__ -> dict.__getitem__ (taken at the dict level here)"""
@@ -206,3 +212,8 @@ class GetItem:
 
     def expr(self, ex, st, e):
         return NotImplemented
+
+
+def frame_replay(d):
+    """replay description of a failed frame obligation: the native re-check looks at the receiver / operands before and after the call"""
+    return dict(kind='frame', name=d['name'], where=d['where'], detail=d['detail'][:300])
